@@ -99,6 +99,26 @@ func dev(args []string) {
 			cfg.Extra = append(cfg.Extra, eng.ExtraPkg{Dir: *moddir + "/" + strings.TrimPrefix(p, "./"), Pattern: p})
 		}
 	}
+	if *family == "validator" {
+		os.MkdirAll(*scratch, 0o755)
+		var sets []eng.ValidatorSet
+		for _, q := range eng.ValidatorFamily() {
+			if *setsFlag == "" || strings.Contains(","+*setsFlag+",", ","+q.ID+",") {
+				sets = append(sets, q)
+			}
+		}
+		mod, err := eng.GenerateValidatorFamily(*repo, sets, *scratch)
+		if err != nil {
+			fmt.Fprintln(os.Stderr, "family:", err)
+			os.Exit(2)
+		}
+		cfg.ModDir = mod
+		cfg.Pkgs = nil
+		for _, q := range sets {
+			cfg.Extra = append(cfg.Extra, eng.ExtraPkg{Dir: mod + "/" + q.ID, Pattern: "./" + q.ID})
+		}
+		cfg.Extra = append(cfg.Extra, eng.ExtraPkg{Dir: *repo + "/validate", Pattern: "github.com/ogen-go/ogen/validate", Mirror: "/verif/contracts/validate"})
+	}
 	if *family == "security" {
 		os.MkdirAll(*scratch, 0o755)
 		var sets []eng.SecuritySet
